@@ -88,7 +88,13 @@ def family():
     add("union_two_recs", [_rec("Ra", [f("a", "int")]), _rec("Rb", [f("b", "string")])], "union", "unionrec")
     add("union_named_mix", ["null", _enum("Eu"), _fixed("Fu", 2), _rec("Ru", [f("k", "long")])], "union")
     add("union_arr_map", ["null", {"type": "array", "items": "int"}, {"type": "map", "values": "string"}], "union")
-    add("union_float_double", _rec("Fd", [f("v", ["float", "double"]), f("w", ["double", "float"])]), "union")
+    add("union_float_double", ["float", "null", "double"], "union")
+    add("union_double_float", _rec("Df", [f("w", ["double", "float"])]), "union")
+    add("union_overlap", [_rec("Oa", [f("a", "int"), f("b", ["null", "int"], default=None)]),
+                          _rec("Ob", [f("a", "int"), f("c", "string", default="x")])], "union", "unionrec")
+    add("union_in_array_named", ["null", {"type": "array", "items": ["null", _enum("Ev"), _rec("Rv", [f("k", "int")])]}],
+        "union", "chain")
+    add("union_map_rec", [{"type": "map", "values": "int"}, _rec("Rm", [f("a", "int")])], "union", "unionrec")
     # defaults / omitted fields
     add("rec_defaults", _rec("Dflt", [f("a", "int", default=7), f("u", ["null", "int"], default=None),
                                       f("r", "long")]), "defaults")
